@@ -83,6 +83,8 @@ type upsConn struct {
 	dropped  bool   // fault: server dropped the connection
 	fault    string // handshake level fault
 	ackMode  int
+	outq     []any // replies of the reader, sent by a writer task (see reply)
+	outOn    bool
 	openSeq  uint64
 	closeSeq uint64
 }
@@ -176,6 +178,28 @@ func (e *upsEnv) write(c *upsConn, v any) error {
 	return wsjson.Write(e.ctx, c.ws, v)
 }
 
+// reply sends what the upstream's reader answers (ack, pong, keep-alive) without blocking the reader:
+// net.Pipe has no buffer, and a real socket does. With synchronous replies a server that answers a
+// client ping while the client's reader answers a server ping would leave both readers blocked in a
+// write until the write time-outs close the connection, which no TCP connection does for two small
+// control messages.
+func (e *upsEnv) reply(c *upsConn, v any) {
+	c.outq = append(c.outq, v)
+	if !c.outOn {
+		c.outOn = true
+		simrt.GoTag("ups.server.writer", fmt.Sprintf("serverw%d", c.idx), func() {
+			for len(c.outq) > 0 {
+				m := c.outq[0]
+				c.outq = c.outq[1:]
+				if err := e.write(c, m); err != nil {
+					c.outq = nil
+				}
+			}
+			c.outOn = false
+		})
+	}
+}
+
 // serve is the upstream's reader for one connection.
 func (e *upsEnv) serve(c *upsConn) {
 	r := e.r
@@ -213,13 +237,13 @@ func (e *upsEnv) serve(c *upsConn) {
 				continue
 			case 3:
 				r.Fault("ack_wrong_message")
-				_ = e.write(c, map[string]any{"type": "next", "id": "x", "payload": map[string]any{}})
+				e.reply(c, map[string]any{"type": "next", "id": "x", "payload": map[string]any{}})
 				continue
 			}
 			c.acked = true
-			_ = e.write(c, map[string]any{"type": "connection_ack"})
+			e.reply(c, map[string]any{"type": "connection_ack"})
 			if legacy {
-				_ = e.write(c, map[string]any{"type": "ka"})
+				e.reply(c, map[string]any{"type": "ka"})
 			}
 		case "subscribe", "start":
 			ss := &upsServerSub{id: id, sub: -1}
@@ -244,7 +268,7 @@ func (e *upsEnv) serve(c *upsConn) {
 				r.Fault("ping_unanswered")
 				continue
 			}
-			_ = e.write(c, map[string]any{"type": "pong"})
+			e.reply(c, map[string]any{"type": "pong"})
 		case "pong", "connection_terminate":
 		}
 	}
